@@ -2,6 +2,12 @@
 
 #include <utility>
 
+#include "config.hpp"
+
+#ifdef AMC_CXX20
+#include <compare>
+#endif
+
 namespace amc {
 
 // Provides emulation of std::exchange if C++14 is not supported.
@@ -14,5 +20,26 @@ T exchange(T &obj, U &&new_value) {
   obj = std::forward<U>(new_value);
   return old_value;
 }
+#endif
+
+#ifdef AMC_CXX20
+/// Three way comparison of two values which falls back to operator< when they are not three way comparable,
+/// as std::vector and std::set do for their elements (the exposition only 'synth-three-way' of the standard).
+struct SynthThreeWay {
+  template <class T, class U>
+  constexpr auto operator()(const T &lhs, const U &rhs) const {
+    if constexpr (std::three_way_comparable_with<T, U>) {
+      return lhs <=> rhs;
+    } else {
+      if (lhs < rhs) {
+        return std::weak_ordering::less;
+      }
+      if (rhs < lhs) {
+        return std::weak_ordering::greater;
+      }
+      return std::weak_ordering::equivalent;
+    }
+  }
+};
 #endif
 }  // namespace amc
